@@ -14,8 +14,21 @@ The harness repeats the real server on identical workspaces (GOMAXPROCS 1 / 2 / 
 creation order; map iteration is randomised by the Go runtime) and compares normalised answers.
 -/
 import LuaHelper.Model.Merge
+import LuaHelper.Gen.Merge
 namespace LuaHelper.C09
 open LuaHelper.Merge
+
+/-- the code the model was written after, as it stands in /repo now (regenerated on every run): the three
+    blocking comparisons of `Merge.blocks` with their operators, the same-file exemption, and the
+    backward scan that makes the LAST accepted candidate the winner -/
+theorem merge_code_shape :
+    Gen.mergeConds =
+      ["oneVar.FileName == varInfo.FileName => continue",
+       "oneVar.ExtraGlobal.FuncLv < varInfo.ExtraGlobal.FuncLv => return false",
+       "oneVar.ExtraGlobal.ScopeLv < varInfo.ExtraGlobal.ScopeLv => return false",
+       "oneVar.Loc.StartLine <= varInfo.Loc.StartLine => return false"] ∧
+    Gen.findScanBackward = true := by decide
+#print axioms merge_code_shape
 
 theorem run_append (a b : List Cand) : run (a ++ b) = b.foldl addCand (run a) := by
   unfold run; rw [List.foldl_append]
